@@ -288,6 +288,49 @@ func (ctx *RenderContext) GetVariable(name string) (interface{}, error) {
 	return nil, nil
 }
 
+// hasAttribute reports whether obj has a member called name: a key of a map, an
+// exported field (also one promoted from an embedded struct) or a method
+func hasAttribute(obj interface{}, name string) bool {
+	rv := reflect.ValueOf(obj)
+	if !rv.IsValid() {
+		return false
+	}
+	if rv.MethodByName(name).IsValid() {
+		return true
+	}
+	for rv.Kind() == reflect.Ptr || rv.Kind() == reflect.Interface {
+		if rv.IsNil() {
+			return false
+		}
+		rv = rv.Elem()
+		if rv.MethodByName(name).IsValid() {
+			return true
+		}
+	}
+	switch rv.Kind() {
+	case reflect.Map:
+		if rv.Type().Key().Kind() != reflect.String {
+			if rv.Type().Key().Kind() == reflect.Interface {
+				return rv.MapIndex(reflect.ValueOf(name)).IsValid()
+			}
+			return false
+		}
+		return rv.MapIndex(reflect.ValueOf(name).Convert(rv.Type().Key())).IsValid()
+	case reflect.Struct:
+		if rv.CanAddr() && rv.Addr().MethodByName(name).IsValid() {
+			return true
+		}
+		if reflect.PtrTo(rv.Type()).NumMethod() > 0 {
+			if _, ok := reflect.PtrTo(rv.Type()).MethodByName(name); ok {
+				return true
+			}
+		}
+		f, ok := rv.Type().FieldByName(name)
+		return ok && f.PkgPath == ""
+	}
+	return false
+}
+
 // hasVariable reports whether name is bound at all (possibly to null) in this
 // context, one of its parents or the globals
 func (ctx *RenderContext) hasVariable(name string) bool {
@@ -1031,9 +1074,12 @@ func (ctx *RenderContext) EvaluateExpression(node Node) (interface{}, error) {
 			// Check if this is a GetAttrNode
 			if getAttrNode, ok := n.node.(*GetAttrNode); ok {
 				// Evaluate the object
+				// (a missing variable or attribute evaluates to nil without an
+				// error; an error here is a failing function, filter or lookup
+				// inside the expression and must not be swallowed)
 				obj, err := ctx.EvaluateExpression(getAttrNode.node)
 				if err != nil {
-					return false, nil // If can't evaluate the object, it's not defined
+					return nil, err
 				}
 
 				// If obj is nil, attribute not defined
@@ -1044,7 +1090,7 @@ func (ctx *RenderContext) EvaluateExpression(node Node) (interface{}, error) {
 				// Evaluate the attribute name
 				attrNameNode, err := ctx.EvaluateExpression(getAttrNode.attribute)
 				if err != nil {
-					return false, nil
+					return nil, err
 				}
 
 				attrName, ok := attrNameNode.(string)
@@ -1058,9 +1104,8 @@ func (ctx *RenderContext) EvaluateExpression(node Node) (interface{}, error) {
 					return exists, nil
 				}
 
-				// For other types, try to get the attribute but catch the error
-				_, err = ctx.getAttribute(obj, attrName)
-				return err == nil, nil
+				// For other types: is there such a key, field or method?
+				return hasAttribute(obj, attrName), nil
 			}
 
 			// Check for simple variable references
@@ -1073,9 +1118,9 @@ func (ctx *RenderContext) EvaluateExpression(node Node) (interface{}, error) {
 					}
 				}
 
-				// Try full variable lookup
-				val, err := ctx.GetVariable(varNode.name)
-				return err == nil && val != nil, nil
+				// Bound anywhere up the chain of contexts (a variable that
+				// holds null is defined, here as in the template that set it)
+				return ctx.hasVariable(varNode.name), nil
 			}
 		}
 
